@@ -21,7 +21,7 @@ FORGERIES = [
     "auth_cleared_cipher_malleated", "auth_cleared_cipher_malleated_digest_kept", "auth_cleared_plain", "auth_cleared_attacker_octets",
     "priv_flag_kept_plaintext_signed_by_auth_key_holder",
     "report_known_oid", "report_unknown_oid", "report_response_bindings", "report_authflag_baddigest",
-    "report_empty_bindings", "response_as_report_tag",
+    "report_empty_bindings", "report_error_status_nosuchname", "report_error_status_toobig", "response_as_report_tag",
 ]
 OPS = ["get", "multiget", "getnext", "set", "bulkget", "walk"]
 HASHES = ["md5", "sha1"]
@@ -292,9 +292,15 @@ def _forge(name: str, plan: dict, raw: bytes, agent: Any) -> Optional[bytes]:
             vbs = [((1, 3, 6, 1, 4, 1, 9999, 1, 0), ("c32", 7))]
         elif name == "report_empty_bindings":
             vbs = []
+        elif name.startswith("report_error_status"):
+            vbs = [(o, ("null", None)) for o, _ in authentic_pdu["vbs"]]
         else:
             vbs = [(o, FORGED_VALUE) for o, _ in authentic_pdu["vbs"]] or [(BASE + (9, 9), FORGED_VALUE)]
         rep = S.mkpdu(S.PDU_REPORT, authentic_pdu["rid"], vbs)
+        if name == "report_error_status_nosuchname":
+            rep = S.mkpdu(S.PDU_REPORT, authentic_pdu["rid"], vbs, es=2, ei=1 if vbs else 0)   # SNMPv1's end-of-MIB signal
+        elif name == "report_error_status_toobig":
+            rep = S.mkpdu(S.PDU_REPORT, authentic_pdu["rid"], [], es=1, ei=0)
         sc_bytes = S.enc_scoped(ctx_engine, ctx_name, S.enc_pdu(rep))
         if name == "report_authflag_baddigest":
             return signed(1, wrong_key, sc_bytes)
